@@ -5,15 +5,33 @@ SERIALIZE = '_ZNK5phosg4JSON9serializeB5cxx11Ejm'
 RESET = '_ZSt10__do_visitIvZNSt8__detail9__variant16_Variant_storageILb0EJDnbldNSt7__cxx1112basic_stringIcSt11char_traitsIcESaIcEEESt6vectorISt10unique_ptrIN5phosg4JSONESt14default_deleteISC_EESaISF_EESt13unordered_mapIS8_SF_vvvEEE8_M_resetEvEUlOT_E_JRSt7variantIJDnbldS8_SH_SJ_EEEEDcOT0_DpOT1_'
 SCALAR_REC = '%s:1,%s:1' % (SERIALIZE, RESET)  # scalars: serialize() and ~JSON never recurse (asserted by the unwinding assertions)
 UNITS = {'ser': dict(wrap='wrap.cc', shim=True, new_block=96, cxxflags=['-DVERIF_UMAP_CAP=2'], cuts=CUTS, ir2c_flags=['--union-fp-bytes'])}
-BOUNDS = ''
-STUBS = []
-OUTSIDE = []
-ASSUMPTIONS = []
+BOUNDS = ('serializer side only, one scalar value at a time, the KIND of the value a concrete cell, its content symbolic. '
+          'escape_string: every byte string of length 0..1 (quick) / 0..2 (thorough) x 3 modes. serialize: null, both booleans, every int64 with HEX_INTEGERS '
+          '(incl. INT64_MIN/MAX), ints of 1..2 (quick) / 1,2,3,5 (thorough) decimal digits without it, strings of length 0 (quick) / 0..2 (thorough), each x all 64 '
+          'option sets (symbolic); doubles: every %g text of the shapes listed in the query names (1-6 integer digits, 0-5 fraction digits, optional 2-3 digit '
+          'exponent) x 64 option sets. operator<=>/==/!=: all 25 kind pairs (thorough), all values, strings of length <= 2. Copies: every scalar kind, strings <= 3 bytes.')
+STUBS = ['vasprintf: engine/rt/stub_printf.h (exact for %X/%c/%s family) in h_escape.c, h_scalar.c, h_copy.c; in h_float.c a CONTRACT stub for "%g" returning an arbitrary '
+         'member of the %g output language (the digits are not computed from the double; shortest-six-digit rounding is printf\'s, not phosg\'s)',
+         'std::to_string(long) cut and replaced by a contract stub (json_cuts.h): returns the canonical decimal text the harness prepared for exactly that value; '
+         'decimal digit generation is libstdc++\'s',
+         'engine/shim/unordered_map replaces std::unordered_map in the translated TU (dictionaries are not reached by any query)',
+         'ir2c --union-fp-bytes: double members of std::variant storage emitted as byte arrays (CBMC loses pointers stored in double-typed fields, see NOTES.md)']
+OUTSIDE = ['the parse half of the round trip: JSON::parse of the serialized text, re-serialization, strict-mode acceptance BY THE PHOSG PARSER, agreement with an independent JSON '
+           'implementation on whole documents. Whole-parser queries give no verdict even at input length 1 (see props/C05 OUTSIDE for the measurement). What is decided '
+           'instead: the serialized scalar text is RFC 8259 text of the right value (independent readers in the harnesses).',
+           'value TREES (lists, dictionaries, nesting), FORMAT layout, SORT_DICT_KEYS, deep copy / equality of containers: measured: serialize of the empty list built by '
+           'JSON::list() does not leave symbolic execution in 900 s (the std::variant index is not constant-folded after the container moves, so CBMC explores every '
+           'alternative incl. the std::map path).',
+           'the digits printf("%g") produces for a given double (six significant digits) and the decimal digits of std::to_string for ints beyond 5 digits (incl. '
+           'INT64_MIN/MAX in decimal): libc / libstdc++ digit loops are not decidable here; both are contract stubs',
+           'NaN and infinities (the property is about finite doubles; serialize prints nan/inf + ".0", not JSON)']
+ASSUMPTIONS = ['the %g output language assumed by h_float.c: [-] digits [. digits] | [-] digit [. digits] e(+|-) dd[d] (C11 7.21.6.1 for finite values)',
+               'std::to_string(long) returns the canonical decimal text of its argument']
 
 def queries(tier):
     qs = []
     for mode, nm in ((0, 'std'), (1, 'hex'), (2, 'ctl')):
-        for L in ([0, 1, 2] if tier == 'quick' else [0, 1, 2, 3]):
+        for L in ([0, 1] if tier == 'quick' else [0, 1, 2]):
             qs.append(dict(name='escape_%s_len%d' % (nm, L), unit='ser', harness='h_escape.c', defs={'MODE': mode, 'LEN': L}, unwind=6 * L + 18,
                            timeout=900, mem_gb=6, desc='JSON::escape_string mode %s on %d symbolic bytes (all 256 values): alphabet per mode, independent unescaper inverts' % (nm, L),
                            bounds='input length == %d, all byte values' % L))
@@ -30,10 +48,10 @@ def queries(tier):
     qs.append(dict(name='scalar_hexint', unit='ser', harness='h_scalar.c', defs={'KIND': 2}, unwind=22, unwindset=SCALAR_REC, timeout=900, mem_gb=6,
                    desc='serialize(int64) with HEX_INTEGERS: exact text for every int64 (incl. INT64_MIN/MAX) x 32 option sets', bounds='all 2^64 values'))
     for nd in ([1, 2] if tier == 'quick' else [1, 2, 3, 5]):
-        qs.append(dict(name='scalar_decint_%ddig' % nd, unit='ser', harness='h_scalar.c', defs={'KIND': 3, 'NDIG': nd}, unwind=nd + 12, unwindset=SCALAR_REC, timeout=900, mem_gb=6,
+        qs.append(dict(name='scalar_decint_%ddig' % nd, unit='ser', harness='h_scalar.c', defs={'KIND': 3, 'NDIG': nd}, unwind=nd + 18, unwindset=SCALAR_REC, timeout=900, mem_gb=6,
                        desc='serialize(int64) without HEX_INTEGERS returns exactly std::to_string(value) (%d-digit values, both signs) x 32 option sets' % nd,
                        bounds='%d decimal digits' % nd))
-    for L in ([0, 1] if tier == 'quick' else [0, 1, 2, 3]):
+    for L in ([0] if tier == 'quick' else [0, 1, 2]):
         qs.append(dict(name='scalar_string_len%d' % L, unit='ser', harness='h_scalar.c', defs={'KIND': 4, 'LEN': L}, unwind=6 * L + 20, unwindset=SCALAR_REC, timeout=900, mem_gb=6,
                        desc='serialize(string of %d symbolic bytes) x 64 option sets: quotes + body that un-escapes to the input, alphabet of the selected mode' % L,
                        bounds='string length == %d, all byte values' % L))
